@@ -7,8 +7,12 @@ def queries():
         qs.append(Query('seq_h%d' % h, SRC, 'h_countingptr',
                         'sequential history: %d symbolic operations out of 17 kinds over 3 CountingPtr<Obj> handles + 1 CountingPtr<Base>, up to 4 objects (incl. unify copies)' % h,
                         defs=['H=%d' % h], tiers=('quick', 'thorough') if h <= 3 else ('thorough',), timeout=900 if h <= 3 else 7200, unwind=5, weight=h))
+    for nthr, nc, rounds, quick in ((2, 1, 22, True), (2, 2, 34, False), (3, 1, 34, False)):
+        qs.append(Query('conc_t%d_c%d' % (nthr, nc), 'C12_conc.cpp', 'h_countingptr_conc',
+                        '%d threads, each copying (%d time(s)) and dropping handles to one shared object; every interleaving at the granularity of the atomic operations of inc_reference / dec_reference' % (nthr, nc),
+                        defs=['NTHR=%d' % nthr, 'NCOPIES=%d' % nc], conc=True, nt=nthr + 1, rounds=rounds, yield_atomics=True, tiers=('quick', 'thorough') if quick else ('thorough',), timeout=3600 if quick else 14400, unwind=4, max_unwind=80, weight=nthr * nc * 3))
     return qs
 
 ASSUMPTIONS = ['objects derive from tlx::ReferenceCounter and start with count zero (documented requirement)', 'std::atomic operations are sequentially consistent in the sequential histories']
-OUTSIDE = ['histories longer than 7 operations, more than 4 handles / 4 objects', 'custom deleters', 'weak-memory reorderings']
+OUTSIDE = ['histories longer than 7 operations, more than 4 handles / 4 objects', 'more than 3 threads / 2 copies per thread in the concurrent queries', 'custom deleters', 'weak-memory reorderings (atomics are sequentially consistent in the model)']
 EXPLANATION = 'symbolic handle-operation histories; reference_count() compared with the number of handles that point to each object, destruction ledger per object, CBMC heap checks for use-after-free/double delete'
